@@ -880,7 +880,7 @@ def transc(kind, u):
     if kind == 'acos' and u.is_const() and u.cval() == 1:
         return RF({})
     if kind == 'log' and u.is_const() and u.cval() <= 0:
-        raise OutsideFragment("log of a non-positive constant")
+        return undef("log of a non-positive constant")          # -inf / nan of the float code: absorbing, must not reach an output
     if kind == 'exp' and len(u.p) == 1:
         # exp(c*log(a)) with integer c
         (m, c), = u.p.items()
